@@ -180,11 +180,31 @@ fn c16_attribute_scan_single() {
 fn c16_body_scan() {
     tape::set_tables(&NAMES, &TEXTS, &ATTRS);
     rpsl::model::set_pool(&POOL);
-    let mut t = Tape::EMPTY;
-    t.attrs[0] = AttrCell::new(an::COMMENT, tx::ANNOT_DECORATED);
-    let f = AttrFacts { inactive: false, annotation: Some(0), n_comment: 1 };
-    let body: u8 = kani::any();
-    kani::assume(body < 4);
-    push_body(&mut t, body);
-    run_and_check(t, 1, &f, body);
+    // the four bodies are walked by a concrete loop (a tape whose *elements* are symbolic costs
+    // minutes per reader iteration; see DESIGN.md, cost rules); the annotation text is symbolic
+    let mut body = 0u8;
+    while body < 4 {
+        let annot: bool = kani::any();
+        let mut t = Tape::EMPTY;
+        t.attrs[0] = AttrCell::new(an::COMMENT, if annot { tx::ANNOT_DECORATED } else { tx::ANNOT_PLAIN });
+        let f = AttrFacts { inactive: false, annotation: Some(if annot { 0 } else { 1 }), n_comment: 1 };
+        push_body_concrete(&mut t, body);
+        run_and_check(t, 1, &f, body);
+        body += 1;
+    }
+}
+
+/// Like `push_body`, for a concrete `body` (plain pushes, no windows).
+fn push_body_concrete(t: &mut Tape, body: u8) {
+    if body != 2 {
+        t.push(Cell::start(X, 2));
+        t.push(Cell::text(tx::POLICY_NAME));
+        t.push(Cell::end(X, 2));
+    }
+    if body != 1 {
+        t.push(Cell::start(X, 3));
+        t.push(Cell::empty(X, if body == 3 { 5 } else { 4 }));
+        t.push(Cell::end(X, 3));
+    }
+    t.push(Cell::end(X, 1));
 }
